@@ -16,13 +16,15 @@ static int all_zero(const void *p,size_t n){ const unsigned char *c=p; for(size_
 
 /* ------------------------------------------------------------------ stream construction */
 /* a physical stream whose links are encoder-made and/or model-made (64..8192 blocks, floor 0, ...) */
+static int force_modest_lie=0;   /* set by the phantom-tail stratum of case_c03: every granule lie of damage kind 8 is a modest overstatement on an EOS page */
 static int build_mixed(rng_t *r,int thorough,buf_t *out,char *desc,size_t dn,int force_model){
-  int nl= rng_chance(r,0.4)?1:(int)rng_range(r,2,thorough?6:4); size_t k=0; k+=snprintf(desc+k,dn-k,"links=%d",nl);
+  int phantom= force_model==2; if(phantom) force_model=0;   /* phantom-tail stratum: 2-4 links, links after the first mostly model-made and mostly undecodable */
+  int nl= rng_chance(r,0.4)?1:(int)rng_range(r,2,thorough?6:4); if(phantom && nl<2) nl=(int)rng_range(r,2,4); size_t k=0; k+=snprintf(desc+k,dn-k,"links=%d",nl);
   for(int i=0;i<nl;i++){
-    int model= force_model || rng_chance(r,0.3);
+    int model= force_model || rng_chance(r,0.3) || (phantom && i>0 && rng_chance(r,0.8));
     pktlist_t pk; pktlist_init(&pk); int havepk=0; encres_t er;
     if(model){
-      sp_setup *S=sp_gen_setup(r,(int)rng_below(r,SP_NPROFILES),1); int np=(int)rng_range(r,2,30); int unb= rng_chance(r,0.15);   /* some model links open but cannot be decoded (over-populated codebook): every read or seek into them is refused, again and again */
+      sp_setup *S=sp_gen_setup(r,(int)rng_below(r,SP_NPROFILES),1); int np=(int)rng_range(r,2,30); int unb= rng_chance(r,(phantom&&i>0)?0.75:0.15);   /* some model links open but cannot be decoded (over-populated codebook): every read or seek into them is refused, again and again */
       if(((long)S->channels<<S->bs1exp)>(1L<<17)) np=VH_MIN(np,6);
       sp_gen_stream(r,S,np,&pk,(int)rng_below(r,2)); havepk=1;
       if(unb){ int bad=0; for(int b=0;b<S->nbooks && !bad;b++){ sp_book *B=&S->books[b]; if(B->ordered||B->used<3) continue; long e=B->used_idx[rng_below(r,(uint32_t)B->used)]; if(B->len[e]>1){ B->len[e]=1; bad=1; } }
@@ -75,7 +77,7 @@ static void damage(rng_t *r,buf_t *s,int kind){
   case 7: buf_add(&o,s->p,s->n); for(int i=0;i<np;i++) if(pg[i].eos && rng_chance(r,0.7)){ o.p[pg[i].off+5]&=~4; fix_crc(o.p+pg[i].off,pg[i].len); } break;
   case 8: case 9: buf_add(&o,s->p,s->n); { int t=(int)rng_range(r,1,4); for(int k=0;k<t;k++){ int i=(int)rng_below(r,(uint32_t)np); ogg_int64_t g= kind==9?-1: rng_chance(r,0.3)?0: rng_chance(r,0.5)?(ogg_int64_t)rng_range(r,0,1000000):(ogg_int64_t)(rng_next(r)>>(rng_below(r,40)));
         if(rng_chance(r,0.2)) g=-g;
-        if(kind==8 && rng_chance(r,0.35)){ /* a modest lie: a link's last page claims a few hundred samples more than were coded (a phantom tail that seeks can be aimed at) */
+        if(kind==8 && (force_modest_lie || rng_chance(r,0.35))){ /* a modest lie: a link's last page claims a few hundred samples more than were coded (a phantom tail that seeks can be aimed at) */
           int ne=0; for(int q=0;q<np;q++) if(pg[q].eos) ne++; if(ne){ int w=(int)rng_below(r,(uint32_t)ne); for(int q=0;q<np;q++) if(pg[q].eos && w--==0){ i=q; g=pg[q].granule+(ogg_int64_t)rng_range(r,20,400); break; } } }
         unsigned char *p=o.p+pg[i].off; for(int b=0;b<8;b++) p[6+b]=(unsigned char)((uint64_t)g>>(8*b)); fix_crc(p,pg[i].len); } } break;
   case 10: buf_add(&o,s->p,(size_t)rng_range(r,0,(long)s->n)); break;
@@ -111,6 +113,14 @@ static long wild_i64(rng_t *r,ogg_int64_t total){
   switch(rng_below(r,9)){ case 0: return 0; case 1: return (long)total; case 2: return (long)total-1; case 3: return (long)total+1; case 4: return -1; case 5: return (long)(rng_next(r)>>1); case 6: return -(long)(rng_next(r)>>1);
   case 7: return 0x7fffffffffffffffL; default: return total>0?(long)rng_range(r,0,(long)total):0; }
 }
+/* a quarter of the sample targets sit at or around a link boundary of the opened file (also just inside a link's claimed end, where an overstated length leaves a phantom tail) */
+static long wild_pos(rng_t *r,OggVorbis_File *vf,ogg_int64_t total){
+  long nl=ov_streams(vf);
+  if(nl>=1 && rng_chance(r,0.25)){ long j=(long)rng_below(r,(uint32_t)nl); ogg_int64_t st=0; for(long q=0;q<j;q++){ ogg_int64_t l=ov_pcm_total(vf,(int)q); if(l>0) st+=l; }
+    ogg_int64_t len=ov_pcm_total(vf,(int)j); if(len<0) len=0;
+    switch(rng_below(r,5)){ case 0: return (long)(st+len-rng_range(r,0,600)); case 1: return (long)(st+len+rng_range(r,-3,3)); case 2: return (long)(st+rng_range(r,-3,3)); case 3: return (long)(st+len-rng_range(r,0,40)); default: return (long)(st+rng_range(r,0,600)); } }
+  return wild_i64(r,total);
+}
 static double wild_d(rng_t *r,double dur){
   switch(rng_below(r,9)){ case 0: return 0; case 1: return dur; case 2: return -1; case 3: return dur+1; case 4: return NAN; case 5: return INFINITY; case 6: return -INFINITY; case 7: return 1e300; default: return rng_unit(r)*dur; }
 }
@@ -129,13 +139,13 @@ static void run_script(rng_t *r,H *h,H *h2,int nops,size_t nbytes,const char *de
     case 1: case 2: { int len=(int)(rng_chance(r,0.15)?rng_range(r,-5,40):rng_range(r,1,(long)sizeof ibuf)); if(len>(int)sizeof ibuf) len=sizeof ibuf;
       int word= rng_chance(r,0.15)?(int)rng_range(r,-1,4):(rng_chance(r,0.5)?1:2); char *b=malloc(len>0?len:1);
       ret=ov_read(vf,b,len,(int)rng_below(r,2),word,(int)rng_below(r,2),rng_chance(r,0.2)?NULL:&bs); if(ret>len && len>=0) res_viol("C03","read-overran-buffer","ov_read returned %ld for length %d",ret,len); free(b); } break;
-    case 3: ret=ov_pcm_seek(vf,wild_i64(r,T)); break;
-    case 4: ret=ov_pcm_seek_page(vf,wild_i64(r,T)); break;
+    case 3: ret=ov_pcm_seek(vf,wild_pos(r,vf,T)); break;
+    case 4: ret=ov_pcm_seek_page(vf,wild_pos(r,vf,T)); break;
     case 5: ret=ov_time_seek(vf,wild_d(r,D)); break;
     case 6: ret=ov_time_seek_page(vf,wild_d(r,D)); break;
     case 7: ret=ov_raw_seek(vf,rng_chance(r,0.7)?rng_range(r,0,(long)nbytes):wild_i64(r,(ogg_int64_t)nbytes)); break;
-    case 8: ret=ov_pcm_seek_lap(vf,wild_i64(r,T)); break;
-    case 9: ret=ov_pcm_seek_page_lap(vf,wild_i64(r,T)); break;
+    case 8: ret=ov_pcm_seek_lap(vf,wild_pos(r,vf,T)); break;
+    case 9: ret=ov_pcm_seek_page_lap(vf,wild_pos(r,vf,T)); break;
     case 10: ret=ov_time_seek_lap(vf,wild_d(r,D)); break;
     case 11: ret=ov_time_seek_page_lap(vf,wild_d(r,D)); break;
     case 12: ret=ov_raw_seek_lap(vf,rng_chance(r,0.7)?rng_range(r,0,(long)nbytes):wild_i64(r,(ogg_int64_t)nbytes)); break;
@@ -165,9 +175,11 @@ static void case_c03(const drvargs_t *a,long id){
   res_begin(id);
   char desc[600]; buf_t s; buf_init(&s);
   ctx_mark("build");
-  if(build_mixed(&r,a->thorough,&s,desc,sizeof desc-120,(id%8)==7)){ res_end(); buf_free(&s); return; }
+  int phantom= (id%16)==11;   /* phantom-tail stratum: a link whose last page overstates its length by 20-400 samples, followed (mostly) by a link that opens but cannot be decoded */
+  if(build_mixed(&r,a->thorough,&s,desc,sizeof desc-120,phantom?2:(id%8)==7)){ res_end(); buf_free(&s); return; }
   int d1=(int)(id%DMG_KINDS), d2= rng_chance(&r,0.25)?(int)rng_below(&r,DMG_KINDS):0;
-  damage(&r,&s,d1); if(d2) damage(&r,&s,d2);
+  if(phantom){ d1=8; if(d2 && rng_chance(&r,0.7)) d2=0; force_modest_lie=1; res_count("phantom_tail_streams",1); }
+  damage(&r,&s,d1); force_modest_lie=0; if(d2) damage(&r,&s,d2);
   int seekmode= rng_chance(&r,0.65)?1:(rng_chance(&r,0.6)?0:2); int how=(int)rng_below(&r,10); how= how<7?0: how<9?1:2;
   { size_t k=strlen(desc); snprintf(desc+k,sizeof desc-k," | %s+%s seek%d how%d",dmgname[d1],dmgname[d2],seekmode,how); }
   vh_dump("stream.ogg",s.p,s.n);
